@@ -53,6 +53,18 @@ class Helper:
 ERR = "urn:ietf:params:acme:error:"
 
 
+def jwk_thumbprint(jwk):
+    """RFC 7638 (SHA-256), computed independently of the code under test."""
+    import hashlib
+    req = {"RSA": ["e", "kty", "n"], "EC": ["crv", "kty", "x", "y"], "OKP": ["crv", "kty", "x"]}[jwk["kty"]]
+    canon = json.dumps({k: jwk[k] for k in req}, separators=(",", ":"), sort_keys=True)
+    return b64u(hashlib.sha256(canon.encode()).digest())
+
+
+def key_authorization(token, jwk):
+    return token + "." + jwk_thumbprint(jwk)
+
+
 class MockCA:
     def __init__(self, helper, rules=None, opts=None, tls=None):
         self.h = helper
@@ -90,6 +102,7 @@ class MockCA:
         self.kind_count = {}
         self.obj_ctr = 0
         self.forget_accounts = False
+        self.validator = None     # callable(ca, authz, challenge, account_jwk) -> {"ok": bool, ...}
         self.srv = None
         self.base = None
 
@@ -446,12 +459,26 @@ class MockCA:
                 c = self.challs.get(cid)
                 if c is None:
                     return self.problem(404, "malformed", "no such challenge")
-                c["status"] = "processing"
                 a = self.authzs[c["authz"]]
-                if a["status"] == "pending":
-                    a["status"] = "processing"
                 rec["challenge_type"] = c["type"]
                 rec["challenge_ident"] = a["orig"]
+                acct_jwk = self.accounts[kid]["jwk"]
+            # validating mode: a conforming CA checks the proof now (outside the lock: it may block)
+            verdict = None
+            if self.validator is not None:
+                try:
+                    verdict = self.validator(self, a, c, acct_jwk)
+                except Exception as ex:   # a crashing validator must not look like a CA fault
+                    verdict = {"ok": False, "error": "validator: %r" % ex}
+                rec["validation"] = verdict
+            with self.lock:
+                if verdict is not None and not verdict.get("ok"):
+                    c["status"] = "invalid"
+                    a["status"] = "invalid"
+                else:
+                    c["status"] = "processing"
+                    if a["status"] == "pending":
+                        a["status"] = "processing"
                 return {"status": 200, "body": self.chall_body(cid)}
         if kind == "order":
             oid = path.split("/")[-1]
